@@ -110,6 +110,9 @@ func (e *Exec) global(g *ssa.Global) *Value {
 			e.globalInner = map[*Value][]*Value{}
 		}
 		name := g.Pkg.Pkg.Name() + "." + g.Name()
+		if !strings.HasPrefix(g.Pkg.Pkg.Path(), "github.com/go-openapi/validate") {
+			return cell // only the package-level state of the code under test is monitored
+		}
 		e.globalCells[cell] = name
 		w := newWalker()
 		w.seenP[cell] = true
@@ -735,13 +738,33 @@ func (fr *frame) visit(instr ssa.Instruction) continuation {
 		e.store(addr, fr.get(ins.Val))
 	case *ssa.If:
 		cond := fr.term(ins.Cond)
-		if !cond.conc() && e.merge == nil && e.run.cfg.mergeOn && !e.run.mergeBanned(ins) {
+		if !cond.conc() && e.merge == nil && e.run.cfg.mergeOn {
 			if _, decided := e.in.known(e.in.intern(cond)); !decided {
 				if j := e.run.ipdom(fr.block); j != nil {
-					if fr.mergeRegion(cond, j) {
+					// whether the region was merged is part of the path's decision record (2 = merged,
+					// 3 = not merged): the list of regions known not to merge is shared between paths
+					// and must not make the re-execution of a decision prefix diverge
+					if e.pos < len(e.decisions) {
+						d := e.decisions[e.pos]
+						e.pos++
+						if d == 2 {
+							if !fr.mergeRegion(cond, j) {
+								panic(abort("replay divergence: a region merged on the parent path does not merge on re-execution"))
+							}
+							return kJump
+						}
+						if d != 3 {
+							panic(abort("replay divergence: merge marker expected"))
+						}
+					} else if !e.run.mergeBanned(ins) && fr.mergeRegion(cond, j) {
+						e.decisions = append(e.decisions, 2)
+						e.pos++
 						return kJump
+					} else {
+						e.run.mergeFailed(ins)
+						e.decisions = append(e.decisions, 3)
+						e.pos++
 					}
-					e.run.mergeFailed(ins)
 				}
 			}
 		}
